@@ -6,7 +6,11 @@ import (
 	"math"
 	"math/rand"
 	"reflect"
+	"runtime"
 	"sort"
+	"sync"
+	"sync/atomic"
+	"time"
 
 	"github.com/nulab/autog/graph"
 
@@ -900,13 +904,31 @@ func init() {
 		Rule: "graphs from F3-F5, F11 plus the general mixture (ties, several reversed edges on one node, >= 2 self loops, >= 2 components) x all cells except greedy-random; " +
 			"every case is executed r times in one process (quick 6, thorough 16) and the canonical encodings (node order, ids, float bits, points, flags) are compared byte-wise; " +
 			"every worker is a fresh process, and the driver additionally re-executes a sample of cases in a second fresh process and compares digests; " +
-			"the caller's edge slice and size map are compared with deep copies taken before the call; non-trivial = >= 2 components | >= 2 self loops | antiparallel/parallel pair | cycle",
+			"the caller's edge slice and the very size map handed to the library are compared with deep copies taken before the call; every 1000th case is a tree of 110-130 nodes with the network simplex positioner, repeated once more on a single processor shared with 15 busy goroutines (no other Layout call running), which stretches its wall-clock time about 16x; non-trivial = >= 2 components | >= 2 self loops | antiparallel/parallel pair | cycle",
 		MinNontrivial: counts(2000, 12000),
 		CrossProcess:  0.25,
-		Required:      []string{"multi_component_inputs", "inputs_with_2_self_loops", "multigraph_inputs", "cyclic_inputs"},
+		Required:      []string{"multi_component_inputs", "inputs_with_2_self_loops", "multigraph_inputs", "cyclic_inputs", "starved_repetitions"},
 		Gen: func(seed int64, tier string, idx int) *core.Case {
 			r := rng("C07", seed, tier, idx)
 			c := &core.Case{Prop: "C07", Tier: tier, Seed: seed, Index: idx}
+			if idx%1000 == 250 {
+				// the same call on a starved processor: one repetition runs on a single processor that it shares with 15 busy
+				// goroutines, so it takes about 16x longer on the wall clock; a result that depends on elapsed time (a time
+				// budget inside an algorithm) then differs from the other repetitions. Inputs: trees of 110-130 nodes with
+				// the network simplex positioner (practically all time is spent in pivot loops), as in C15's starved batch
+				g := gen.Tree(r, 110+r.Intn(21), r.Intn(2) == 0)
+				c.Family, c.Edges = "starved-repetition("+g.Family+")", gen.Names(g)
+				var o core.Opts
+				o.Positioner, o.Router = 3, []int{4, 0, 1}[r.Intn(3)]
+				// network simplex layering: with longest-path layering the long edges of a tree make the positioner's auxiliary
+				// graph so large that one call takes half a minute
+				o.HasFixed, o.FixedW, o.FixedH = true, 40, 20
+				o.NodeSpacing = fptr(10)
+				c.Regime = "integer"
+				c.Opts = o
+				c.Note = "starved"
+				return c
+			}
 			switch r.Intn(5) {
 			case 0:
 				// many small components and self loops
@@ -951,6 +973,9 @@ func init() {
 			if c.Tier == "thorough" {
 				reps = 16
 			}
+			if c.Note == "starved" {
+				reps = 2 // one call takes about a second; the third repetition is the starved one
+			}
 			// deep copies of the caller's data
 			edgesCopy := make([][]string, len(c.Edges))
 			for i, e := range c.Edges {
@@ -993,6 +1018,36 @@ func init() {
 						fmt.Sprintf("run 1 and run %d of the same call differ (%s):\n--- run 1\n%s--- run %d\n%s", i+1, diffClass(first, enc), first, i+1, enc))
 				}
 			}
+			if c.Note == "starved" && first != "" {
+				// one more repetition, alone (no concurrent Layout call: whatever differs is not C15's subject) but starved
+				oldProcs := runtime.GOMAXPROCS(1)
+				var stop atomic.Bool
+				var wg sync.WaitGroup
+				for k := 0; k < 15; k++ {
+					wg.Add(1)
+					go func() {
+						defer wg.Done()
+						x := 0
+						for !stop.Load() {
+							x++
+						}
+						_ = x
+					}()
+				}
+				t0 := time.Now()
+				res := core.Run(c.Edges, opts)
+				el := time.Since(t0)
+				stop.Store(true)
+				wg.Wait()
+				runtime.GOMAXPROCS(oldProcs)
+				if res.Panic != nil {
+					return violated("C07/run-to-run/sometimes-panics", "the call returned when run normally and panicked when run on a starved processor: "+res.Panic.Msg)
+				}
+				if enc := core.Canon(res.Layout); enc != first {
+					return violated("C07/run-to-run/starved/"+diffClass(first, enc),
+						fmt.Sprintf("the same call gives a different result when it runs %v on a processor shared with 15 busy goroutines (%s):\n--- normal\n%s--- starved\n%s", el.Round(time.Millisecond), diffClass(first, enc), clip(first, 800), clip(enc, 800)))
+				}
+			}
 			// a result handed to the caller must not change when later calls are made (no aliasing with internal state)
 			if first != "" && core.Canon(firstLayout.Layout) != first {
 				return violated("C07/earlier-result-modified", fmt.Sprintf("the layout returned by the first call changed while later calls ran:\n--- as returned\n%s--- now\n%s", clip(first, 800), clip(core.Canon(firstLayout.Layout), 800)))
@@ -1019,6 +1074,9 @@ func init() {
 				r.stat("cyclic_inputs", 1)
 			}
 			r.stat("repetitions", reps)
+			if c.Note == "starved" {
+				r.stat("starved_repetitions", 1)
+			}
 			// digest for the cross-process comparison done by the driver
 			r.Detail = "digest:" + HashString(first)
 			if wantSample {
